@@ -207,3 +207,44 @@ pub mod lock {
 // re-export of internals for differential tests
 pub use crate::sync::atomic_dur::AtomicDuration;
 pub use crate::timeout_list::{TimeOutList, TimerThread};
+
+/// `crossbeam::queue::SegQueue` look-alike whose operations are hooked (one schedule point each)
+pub struct SegQueue<T>(crossbeam::queue::SegQueue<T>);
+
+impl<T> SegQueue<T> {
+    pub const fn new() -> Self {
+        SegQueue(crossbeam::queue::SegQueue::new())
+    }
+    #[track_caller]
+    pub fn push(&self, t: T) {
+        step(
+            std::panic::Location::caller(),
+            "segq.push",
+            self as *const _ as usize,
+            |_| 1,
+            || self.0.push(t),
+        )
+    }
+    #[track_caller]
+    pub fn pop(&self) -> Option<T> {
+        step(
+            std::panic::Location::caller(),
+            "segq.pop",
+            self as *const _ as usize,
+            |r: &Option<T>| r.is_some() as u64,
+            || self.0.pop(),
+        )
+    }
+    pub fn is_empty(&self) -> bool {
+        self.0.is_empty()
+    }
+    pub fn len(&self) -> usize {
+        self.0.len()
+    }
+}
+
+impl<T> Default for SegQueue<T> {
+    fn default() -> Self {
+        Self::new()
+    }
+}
